@@ -144,6 +144,18 @@ pub fn execute(scn: &Scn, opts: &ExecOpts) -> Outcome {
     out.violations = v;
     out.probes = probes;
     out.nontrivial = out.probes.get("rolls_completed").copied().unwrap_or(0) > 0;
+    match &scn.roller {
+        RollerSpec::Delete => out.probe("roller_delete", 1),
+        RollerSpec::Fixed { pat, count, .. } => {
+            out.probe(&format!("pattern_{:?}", pat), 1);
+            if *count == 0 {
+                out.probe("roller_count_zero", 1);
+            }
+            if root2.is_some() {
+                out.probe("second_mount_in_use", 1);
+            }
+        }
+    }
     out.summary = summary;
     if let Some(r2) = &root2 {
         let _ = fs::remove_dir_all(r2);
